@@ -234,6 +234,8 @@ def cases(tier):
             yield Case("held:%s" % what, {"kind": "held", "what": what})
     for kind in ("vk", "fr"):
         yield Case("restart:%s" % kind, {"kind": "restart", "what": kind})
+    for a in REENTRY_OPS:
+        yield Case("preempt:A=%s" % a, {"kind": "preempt", "a": a})
 
 
 class _W(ss.World):
@@ -273,6 +275,8 @@ def evaluate(p):
         return _held(p["what"])
     if p["kind"] == "restart":
         return _restart(p["what"])
+    if p["kind"] == "preempt":
+        return _preempt(p["a"])
     return _unseeded()
 
 
@@ -491,6 +495,16 @@ def _held(what):
         for k, (sd, _, arr, b) in enumerate(held):
             o.check("held_result_not_overwritten", _bytes(arr) == b, sub="result %d (seed %s) after call %d" % (k, sd, len(held)))
     o.check("same_seed_same_bytes", held[0][3] == held[2][3] and held[1][3] == held[4][3])
+    if kind in ("ft", "ftsh"):
+        # the returned array belongs to the caller: converting it in place (radians to nanometres, piston removal)
+        # does not change what the next call with the same seed returns
+        for k in (0, 1):
+            arr = held[k][2]
+            if isinstance(arr, numpy.ndarray) and arr.flags.writeable:
+                arr *= 79.6
+                arr -= arr.mean()
+        again = [make(1)[1], make(2)[1]]
+        o.check("result_owned_by_caller", _bytes(again[0]) == held[2][3] and _bytes(again[1]) == held[4][3])
     o.check("different_seeds_give_different_screens", held[0][3] != held[1][3])
     o.check("unseeded_differs", held[3][3] not in (held[0][3], held[1][3]))
     if kind in ("vk", "fr"):
@@ -532,6 +546,70 @@ def _restart(kind):
         obj2.make_initial_screen()
         o.check("restart_equals_fresh_instance", rows(obj2) == ref, sub="seed reassigned to %d:rows_before=%d" % (seed, pre))
     o.stat("lib_calls", 18)
+    return o
+
+
+# ----------------------------------------------------------------------------- two calls interleaved line by line
+# "irrespective of which other library calls ... are interleaved": besides whole operations (the history search
+# above), one call B run to completion at EVERY library line of another call A - all schedules of two threads with
+# one preemption (mc/reentry.py).  Operations are chosen to collide: equal grid sizes, equal seeds, equal classes.
+
+def _reentry_thunks():
+    from aotools.turbulence import phasescreen as ps
+
+    def screen_rows(kind, base, seed, n=2):
+        def f():
+            obj = _new(kind, base, seed)
+            out = [_bytes(obj.scrn)]
+            for _ in range(n):
+                obj.add_row()
+                out.append(_bytes(obj.scrn))
+            return out
+        return f
+    ft = (FTB["r0"], FTB["N"], FTB["delta"], FTB["L0"], FTB["l0"])
+    return {
+        "ft:seed=1": lambda: _bytes(ps.ft_phase_screen(*ft, seed=1)),
+        "ft:seed=2:r0=0.1": lambda: _bytes(ps.ft_phase_screen(0.1, *ft[1:], seed=2)),
+        "ftsh:seed=1": lambda: _bytes(ps.ft_sh_phase_screen(*ft, seed=1)),
+        "ftsh:seed=3:L0=10": lambda: _bytes(ps.ft_sh_phase_screen(ft[0], ft[1], ft[2], 10.0, ft[4], seed=3)),
+        "vk:seed=1": screen_rows("vk", VKB, 1),
+        "vk:seed=2:r0=0.1": screen_rows("vk", _var(VKB, r0=0.1), 2),
+        "fr:seed=1": screen_rows("fr", FRB, 1),
+        "fr:seed=2:L0=10": screen_rows("fr", _var(FRB, L0=10.0), 2),
+    }
+
+
+REENTRY_OPS = ["ft:seed=1", "ft:seed=2:r0=0.1", "ftsh:seed=1", "ftsh:seed=3:L0=10", "vk:seed=1", "vk:seed=2:r0=0.1",
+               "fr:seed=1", "fr:seed=2:L0=10"]
+
+
+def _preempt(a):
+    from mc import reentry
+    o = Out()
+    th = _reentry_thunks()
+    solo = {k: f() for k, f in th.items()}
+    again = {k: f() for k, f in th.items()}
+    o.check("seeded_calls_repeat", solo == again)
+    A = th[a]
+    points = 0
+    for b in REENTRY_OPS:
+        B = th[b]
+        badA, badB, n = [], [], 0
+        for k, where, ra, rb in reentry.explore(A, B):
+            n += 1
+            if ra != solo[a]:
+                badA.append(where)
+            if rb != solo[b]:
+                badB.append(where)
+        points += n
+        o.check("result_independent_of_where_another_call_ran", not badA, sub="B=%s" % b, n=max(n, 1),
+                detail=None if not badA else "A differs when B runs at %s" % ", ".join(sorted(set(badA))[:8]))
+        o.check("interleaved_call_unaffected", not badB, sub="B=%s" % b, n=max(n, 1),
+                detail=None if not badB else "B differs when run at %s" % ", ".join(sorted(set(badB))[:8]))
+        o.stat("schedules_explored", n)
+        o.stat("lib_calls", 2 * n)
+    o.stat("transitions", points)
+    o.stat("nontrivial", 1)
     return o
 
 
@@ -587,6 +665,22 @@ def _distinct(what):
     for name, mk in specials.items():
         a, b = make(mk()), make(mk())
         o.check("same_seed_same_bytes", _bytes(a) == _bytes(b), sub="%s:seed=%s" % (what, name))
+    # seed sequences and their spawned children (the documented way to get independent streams for parallel runs):
+    # every child gives its own screen, different from its siblings, its parent and the plain integer; twice the same
+    kids = lambda: numpy.random.SeedSequence(5).spawn(3)
+    fam = {"int 5": lambda: 5, "SeedSequence(5)": lambda: numpy.random.SeedSequence(5),
+           "child0": lambda: kids()[0], "child1": lambda: kids()[1], "child2": lambda: kids()[2],
+           "grandchild": lambda: kids()[1].spawn(2)[1], "SeedSequence(5, spawn_key=(7,))": lambda: numpy.random.SeedSequence(5, spawn_key=(7,))}
+    got = {}
+    for name, mk in fam.items():
+        a, b = make(mk()), make(mk())
+        o.check("same_seed_same_bytes", _bytes(a) == _bytes(b), sub="%s:seed=%s" % (what, name))
+        got[name] = digest(a)
+    names = [n_ for n_ in fam if n_ != "SeedSequence(5)"]      # SeedSequence(5) and the integer 5 are the same seed
+    for i_, n1 in enumerate(names):
+        for n2 in names[i_ + 1:]:
+            o.check("different_seeds_give_different_screens", got[n1] != got[n2], sub="%s:%s vs %s" % (what, n1, n2))
+    o.stat("lib_calls", 2 * len(fam))
     o.stat("lib_calls", 2 * (32 + len(BIG_SEEDS)) + 2 * len(specials))
     return o
 
